@@ -458,6 +458,10 @@ Runs(dummy) ==
             \* + readiness orders of failing branches in the task-spawning async try macro, under both of its names
             [] Family = "C07" -> FamC07(0) \cup {[r EXCEPT !.prog.caller = "unnamed"] : r \in {q \in FamC07(0) : q.prog.kind.spawn /\ ~q.prog.kind.async /\ q.plan = <<>>}} \cup {[r EXCEPT !.prog.macro = m] : m \in MacroNames(Kind(TRUE, TRUE, TRUE)),
                                                    r \in {q \in FamC05a(0) : q.prog.kind.spawn /\ q.prog.handler = "none" /\ NB(q.prog) = 2}}
+                                 \* + the same branches behind a custom joiner, under every name of every kind
+                                 \cup UNION {{[r EXCEPT !.prog.macro = m] : m \in MacroNames(r.prog.kind)} :
+                                             r \in {q \in FamC16(0) : q.prog.opts.joiner = "eager" /\ q.prog.opts.path = "default" /\ q.prog.opts.transpose = "default"
+                                                                       /\ q.prog.opts.lazy = "default" /\ q.plan = <<>> /\ NB(q.prog) >= 2 /\ "jfn" \notin DOMAIN q.prog}}
             [] Family = "C07x" -> {[r EXCEPT !.prog.macro = AliasOf(r.prog.kind)] :
                                      r \in {q \in FamC04(0) \cup FamC10(0) \cup FamC13(0) \cup FamC16(0) : q.prog.kind.spawn}}
             [] Family = "C08" -> FamC08(0)
